@@ -253,6 +253,7 @@ func runC08Full(r *Report, p *Program) {
 	c08R3(h)
 	c08R4(h)
 	c08R5(h)
+	c08R6(h)
 }
 
 func c08R2(h H) {
